@@ -1,3 +1,4 @@
+import DaliVerif.Props.GearCmds
 import DaliVerif.Proofs.GearSeqC08
 /-!
 # C08 — gear query/set sequences report and establish exactly the gear's state
@@ -11,6 +12,17 @@ evaluates on the real generator's behaviour.
 -/
 namespace DaliVerif.Props.C08
 open DaliVerif GearSeq
+
+/-- the commands of these sequences are flagged `sendtwice` exactly where the standard requires a repetition
+(regenerated table; shared statement `Props.GearCmds`) -/
+theorem cmd_sendtwice_gen :
+    GearCmds.sampleCmds.map (fun c => (c.cls, c.twiceRequired)) =
+      Gen.GearSeqEnums.cmdSamples.map (fun r => (r.1, r.2.2.2.1)) := GearCmds.cmd_sendtwice_gen
+
+theorem cmd_frames_gen :
+    GearCmds.sampleCmds.map (fun c => (c.cls, c.frame, c.devicetype)) =
+      Gen.GearSeqEnums.cmdSamples.map (fun r => (r.1, r.2.1, r.2.2.1)) := GearCmds.cmd_frames_gen
+
 
 /-- a plain `int` destination behaves as the short address it denotes -/
 theorem dest_int (d : Dest) (a : Addr) (hd : d.resolve = .ok a) :
